@@ -229,7 +229,10 @@ def k2(ctx):
 CTX_SINK = {"sorted": {"sorted"}, "member": {"member"}, "eq": {"member"}, "size": {"member"}, "construct": {"none"},
             "state:module": {"constant"}, "state:class": {"constant"},
             # caches, mutations of module-level containers and `global` statements have no admissible row
-            "state:cache": set(), "state:mutate": set(), "state:global": set()}
+            "state:cache": set(), "state:mutate": set(), "state:global": set(),
+            # file-system access: inputs are read, the target is written, its existence is tested once; a row that
+            # READS the target ("read-target") is not admissible
+            "fs": {"read-input", "write-target", "target-exists"}}
 
 
 def k1_scan(ctx, repo):
@@ -332,7 +335,7 @@ def build_cases(ctx) -> list[Case]:
         cases.append(Case("corpus:" + f[:-5], sc, d.get("plugins") or (), "corpus"))
         cases[-1].selfimport = bool(d.get("selfimport"))
     n_corpus = len(cases)
-    n_shared, n_stress, n_fold = (30, 36, 18) if t else (8, 10, 5)
+    n_shared, n_stress, n_fold = (30, 36, 18) if t else (6, 7, 3)
     i = k = 0
     while i < n_shared and k < 4 * n_shared:
         k += 1
@@ -542,6 +545,39 @@ def k1_probe(ctx, case: Case, seed: int, res: dict, files: dict[str, bytes]):
         run.dist("probe_typename_values", str(min(len(tv["values"]), 8)))
 
 
+def k1_generate_into(ctx, c: Case, base, results, reqmap):
+    """Model generate_into (exists-test, mkdir, writes) vs the real generator meeting the target as: absent (the
+    baseline), a directory with a placeholder, a FILE of that name, and with a missing parent directory."""
+    run = ctx.run
+    p = [[k, base[k].decode("utf-8", "surrogateescape")] for k in sorted(base)]
+    for label, st, fs in (("dir", "dir", [[".placeholder", ""]]), ("file", "file", []), ("absent", "absent", [])):
+        out = model.call("C10", [Sym("generateinto"), True, p, st, fs])
+        run.count()
+        run.dist("k1_generate_into", label)
+        if label == "absent":
+            real = ["ok", sorted(base)]
+            got = ["ok", sorted(k for k, _v in out[1])] if out[0] == "ok" else out
+        else:
+            req, res = reqmap.get((c.sid, ("tstate", label)), (None, None))
+            if res is None:
+                continue
+            if res.get("ok"):
+                files = results[(c.sid, ("tstate", label))]
+                real = ["ok", {k: v.decode("utf-8", "surrogateescape") for k, v in files.items()}]
+                got = ["ok", dict(map(tuple, out[1]))] if out[0] == "ok" and isinstance(out[1], list) else out
+            else:
+                real = ["err", (res.get("exc") or ["?"])[0].split(".")[-1]]
+                got = list(out)
+        if got != real:
+            run.violation(f"K1 generate_into: target met as {label!r}: model {str(got)[:200]} vs real {str(real)[:200]} ({c.sid})",
+                          {"stage": "K1 generate_into", "case": c.sid, "target_state": label, "model": str(got)[:2000],
+                           "real": str(real)[:2000]}, found_input=False)
+    # a missing parent is refused by the settings before the generator runs (C17's ground): recorded, not modelled
+    req, res = reqmap.get((c.sid, ("tstate", "noparent")), (None, None))
+    if res is not None:
+        run.dist("k1_generate_into", "noparent:" + ("generated" if res.get("ok") else (res.get("exc") or ["?"])[0].split(".")[-1]))
+
+
 def k1_layout(ctx, c: Case, results):
     """Model layout (isort's section placement under the filesystem oracle gen_env) vs the import blocks on disk:
     fresh, regenerated (target package present) and with extra directories in cwd."""
@@ -737,6 +773,8 @@ def k3(ctx, scratch):
 
         # ---- phase 1: fresh directories
         plan = {s: [] for s in seeds}
+        tstate_cases = \
+            {c.sid for c in [x for x in cases if not x.selfimport and "fwdrefs" not in x.plugins][:3]}
         stale_files = {"gen_client/zzz_stale_operation.py": "# left over from an older generation\nX = 1\n",
                        "gen_client/fragments.py": "raise RuntimeError('stale fragments module')\n",
                        "gen_client/__init__.py": "# stale init\n",
@@ -768,6 +806,16 @@ def k3(ctx, scratch):
                 r["files"] = {**r["files"], "pydantic/.keep": "", "typing_extensions/.keep": ""}
                 r["start_cwd"] = True
                 plan[0].append(((c.sid, ("shadow", 0)), r))
+            # the target as the generator may meet it: an (almost) empty directory, a FILE of that name, no parent
+            if c.sid in tstate_cases:
+                r = c.request(scratch.new(c.sid))
+                r["files"] = {**r["files"], "gen_client/.placeholder": ""}
+                plan[0].append(((c.sid, ("tstate", "dir")), r))
+                r = c.request(scratch.new(c.sid))
+                r["files"] = {**r["files"], "gen_client": "a file, not a directory\n"}
+                plan[0].append(((c.sid, ("tstate", "file")), r))
+                r = c.request(scratch.new(c.sid), target_package_path="missing/sub")
+                plan[0].append(((c.sid, ("tstate", "noparent")), r))
             # stale target directory
             r = c.request(scratch.new(c.sid))
             r["files"] = {**r["files"], **stale_files}
@@ -813,7 +861,7 @@ def k3(ctx, scratch):
         # ---- generation failures: C10 says nothing about inputs the generator refuses, but they must be
         #      refused consistently
         for c in cases:
-            oks = {v: (c.sid, v) in results for (sid, v) in list(reqmap) if sid == c.sid}
+            oks = {v: (c.sid, v) in results for (sid, v) in list(reqmap) if sid == c.sid and v[0] != "tstate"}
             if not any(oks.values()):
                 exc = reqmap[(c.sid, ("seed", 0))][1].get("exc")
                 run.dist("generation", f"refused:{(exc or ['?'])[0]}")
@@ -901,6 +949,8 @@ def k3(ctx, scratch):
                                     "started elsewhere", "started in the project directory", base, cb, scratch,
                                     env_variant=True)
             k1_layout(ctx, c, results)
+            if c.sid in tstate_cases:
+                k1_generate_into(ctx, c, base, results, reqmap)
             # stale directory: the files of the package are those of a fresh run, the others are untouched
             st = results.get((c.sid, ("stale", 0)))
             if st is not None:
